@@ -306,6 +306,7 @@ theorem histStep_ok (h : Hist) (op : HOp) (hu : h.uniform) (hop : op.ok h.stateS
   | clear => simp [histStep, Hist.uniform, HOp.nextSize]
   | get => simp [histStep, histGet_ok h hu, hu, HOp.nextSize]
   | moveKeepNew => simp [histStep, hu, HOp.nextSize]
+  | moveSelf => simp [histStep, hu, HOp.nextSize]
   | moveKeepOld => simp [HOp.ok] at hop
   | moveAssignFrom S2 k w =>
     have := otherHist_ok S2 k w
@@ -341,6 +342,7 @@ theorem histStep_bounded (h : Hist) (op : HOp) (hb : h.bounded) (hop : op ≠ .m
   | clear => obtain ⟨h1, h2, h3⟩ := hb; simp [histStep, Hist.bounded]; omega
   | get => simp [histStep, hb]
   | moveKeepNew => simp [histStep, hb]
+  | moveSelf => simp [histStep, hb]
   | moveKeepOld => exact absurd rfl hop
   | moveAssignFrom S2 k w => simp [histStep, (otherHist_ok S2 k w).2.2.2]
   | moveAssignInto S2 k w => simp [histStep, hb]
